@@ -24,7 +24,7 @@ RULE = ("Histories of 1..30 operations on EBBMotionWrap connected (through the r
         "request enabling exactly one motor. Distinct = distinct histories.")
 ASSUMPTIONS = [
     "int32 values stay inside -2^31..2^31-1 and slots inside 0..28 / 0..31 as documented; nicknames are printable "
-    "ASCII without commas or the substring 'Err:' (which the framing layer would read as a device error)",
+    "ASCII without the substring 'Err:' (which the framing layer would read as a device error); commas allowed",
     "the simulated board follows the EM documentation quoted in motors_enable's docstring: a non-zero first EM "
     "argument sets the global mode and enables motor 1, zero disables motor 1 and leaves the mode; the second "
     "argument only switches motor 2",
@@ -232,8 +232,11 @@ NICK_CHARS = "abcdefghijklmnopqrstuvwxyzABCDEFGHIJKLMNOPQRSTUVWXYZ0123456789 _-.
 SLOT = st.one_of(st.sampled_from([0, 1, 2, 3, 4, 27, 28]), st.integers(0, 28))
 
 
+# nicknames are free text: protocol words inside them (the board family name, command names with their comma, the
+# version banner's wording) are just characters
 SPECIAL_NICKS = ["Errol", "Errata 2", "Err", "ERR", "err", "Studio Errata", "100% ink", "half 50%", "%s", "{0}", "%d%d",
-                 "OK", "OKeefe", "!bang", "QT", "ST"]
+                 "OK", "OKeefe", "!bang", "QT", "ST", "My EBB 2", "lab-EBB", "EBB", "EBBv13", "rig QT,2", "AQT,B", "a,b",
+                 "QT,", ",x", "ST,ST", "QL,3", "Version 3.0", "v", "EM,1,1"]
 
 
 @st.composite
